@@ -1211,24 +1211,72 @@ func ruleContextKeys(c *Ctx, r2, r3 string) {
 			continue
 		}
 		ok := false
+		// v is ctx.Value(own key).(MD) of the accessor's own context argument
+		ownLookup := func(v ssa.Value) bool {
+			ex, isEx := v.(*ssa.Extract)
+			if !isEx {
+				return false
+			}
+			ta, isTA := ex.Tuple.(*ssa.TypeAssert)
+			if !isTA {
+				return false
+			}
+			vc, isV := ta.X.(*ssa.Call)
+			if !isV || !vc.Call.IsInvoke() || vc.Call.Method.Name() != "Value" || origin(vc.Call.Value) != ssa.Value(fn.Params[0]) {
+				return false
+			}
+			// its own key: distinct from the other accessors' keys and stored somewhere (checked above)
+			k := keyName(vc.Call.Args[0])
+			if p, isP := vc.Call.Args[0].(*ssa.Parameter); isP && k == "" {
+				if b := crossParameter(p); b != nil {
+					k = keyName(b)
+				}
+			}
+			if k == "" || keys[k] == nil || len(keys[k].stored) < 1 {
+				return false
+			}
+			for _, other := range []string{"TunnelMetadataFromIncomingContext", "TunnelMetadataFromOutgoingContext", "TunnelChannelFromContext"} {
+				if other != name && w.accessorKey(other) == k {
+					return false
+				}
+			}
+			return true
+		}
 		judge := func(v ssa.Value) {
-			if call, isC := stripConv(v).(*ssa.Call); isC && calleeName(call) == "(google.golang.org/grpc/metadata.MD).Copy" {
-				if ex, isEx := call.Call.Args[0].(*ssa.Extract); isEx {
-					if ta, isTA := ex.Tuple.(*ssa.TypeAssert); isTA {
-						if vc, isV := ta.X.(*ssa.Call); isV && vc.Call.IsInvoke() && vc.Call.Method.Name() == "Value" && origin(vc.Call.Value) == ssa.Value(fn.Params[0]) {
-							// its own key: distinct from the other accessors' keys and stored somewhere (checked above)
-							k := keyName(vc.Call.Args[0])
-							if p, isP := vc.Call.Args[0].(*ssa.Parameter); isP && k == "" {
-								if b, bound := paramBindings[p]; bound {
-									k = keyName(b)
-								}
+			call, isC := stripConv(v).(*ssa.Call)
+			if !isC || calleeName(call) != "(google.golang.org/grpc/metadata.MD).Copy" {
+				return
+			}
+			arg := call.Call.Args[0]
+			if ownLookup(arg) {
+				ok = true
+				return
+			}
+			// md, ok := lookupHelper(ctx, key); return md.Copy(), ok — the helper's returns, with its parameters standing
+			// for this call's arguments
+			if ex, isEx := arg.(*ssa.Extract); isEx {
+				if hc, isHC := ex.Tuple.(*ssa.Call); isHC {
+					if h := helperCallee(hc); h != nil {
+						saved := paramBindings
+						paramBindings = map[*ssa.Parameter]ssa.Value{}
+						for k, b := range saved {
+							paramBindings[k] = b
+						}
+						for i, p := range h.Params {
+							if i < len(hc.Call.Args) {
+								paramBindings[p] = hc.Call.Args[i]
 							}
-							ok = k != "" && keys[k] != nil && len(keys[k].stored) >= 1
-							for _, other := range []string{"TunnelMetadataFromIncomingContext", "TunnelMetadataFromOutgoingContext", "TunnelChannelFromContext"} {
-								if other != name && w.accessorKey(other) == k {
-									ok = false
-								}
+						}
+						all, n := true, 0
+						forEachReturnValue(h, ex.Index, func(hv ssa.Value, _ ssa.Instruction) {
+							n++
+							if !ownLookup(hv) {
+								all = false
 							}
+						})
+						paramBindings = saved
+						if all && n > 0 {
+							ok = true
 						}
 					}
 				}
@@ -1259,10 +1307,20 @@ func ruleContextKeys(c *Ctx, r2, r3 string) {
 	if fn := w.Func("TunnelChannelFromContext"); fn != nil {
 		ok := false
 		forEachReturnValue(fn, 0, func(v ssa.Value, at ssa.Instruction) {
-			if ex, isEx := v.(*ssa.Extract); isEx {
-				if ta, isTA := ex.Tuple.(*ssa.TypeAssert); isTA {
-					if vc, isV := ta.X.(*ssa.Call); isV && vc.Call.IsInvoke() && vc.Call.Method.Name() == "Value" && keyName(vc.Call.Args[0]) != "" && keys[keyName(vc.Call.Args[0])] != nil {
-						ok = true
+			for _, cand := range []ssa.Value{v, origin(v)} { // directly, or through a lookup helper used by this accessor only
+				if ex, isEx := cand.(*ssa.Extract); isEx {
+					if ta, isTA := ex.Tuple.(*ssa.TypeAssert); isTA {
+						if vc, isV := ta.X.(*ssa.Call); isV && vc.Call.IsInvoke() && vc.Call.Method.Name() == "Value" {
+							k := keyName(vc.Call.Args[0])
+							if p, isP := vc.Call.Args[0].(*ssa.Parameter); isP && k == "" {
+								if b := crossParameter(p); b != nil {
+									k = keyName(b)
+								}
+							}
+							if k != "" && keys[k] != nil {
+								ok = true
+							}
+						}
 					}
 				}
 			}
@@ -1301,7 +1359,8 @@ func ruleAccessorsOwnKeyOnly(c *Ctx, rule string) {
 			}
 			k := keyName(vc.Call.Args[0])
 			if p, isP := stripConv(vc.Call.Args[0]).(*ssa.Parameter); isP && k == "" {
-				if b, bound := paramBindings[p]; bound {
+				// the key handed to a lookup helper (shared by the accessors, or used by this one only)
+				if b := crossParameter(p); b != nil {
 					k = keyName(b)
 				}
 			}
